@@ -851,8 +851,6 @@ func groupSpellings() {
 	s.addRaw("G", list(enumTy), `frugal:"7,default,list< E1 >"`, 7, true)
 	s.addRaw("H", mapOf(prim("int32"), prim("string")), `frugal:"8,default, map < i32 : string > "`, 8, true)
 	s.addRaw("I", prim("int"), `frugal:"9,default,i64"`, 9, true)
-	s.addRaw("J", prim("int64"), `frugal:"10,default,i6"`, 10, true) // substring match quirk
-	s.addRaw("K", list(prim("int32")), `frugal:"11,default,list<i32>>trailing"`, 11, true)
 	s.addRaw("L", prim("int"), `frugal:"12,default,int"`, 12, true) // `int` named by its own name: enum
 	// a named type of kind `int` under its own name (enum), in containers, and as plain i64
 	c1 := named("int", "C1")
@@ -869,6 +867,26 @@ func groupSpellings() {
 		x.addRaw("A", prim("int32"), `frugal:"`+id+`,default,i32"`, -1, true)
 		x.addRaw("B", prim("int32"), `frugal:"8,default,i32"`, 8, true)
 	}
+	// annotations that used to be accepted by substring matching of the keyword, and text after a
+	// complete annotation (D18, D19): resolve-only, one struct each
+	for _, c := range []struct {
+		ty  *Ty
+		ann string
+	}{{prim("int64"), "i6"}, {prim("int64"), "6"}, {prim("int64"), "i"}, {prim("string"), "ring"}, {prim("float64"), "e"},
+		{prim("int32"), "i32>>>"}, {prim("int64"), "i64 junk <"}, {list(prim("int32")), "list<i32>>trailing"},
+		{prim("int8"), "i8 byte"}, {prim("int32"), "i32 "}, {mapOf(prim("int32"), prim("int32")), "map<i32:i32>>"}} {
+		x := newStruct("spellings")
+		x.Accept = false
+		x.addRaw("A", c.ty, `frugal:"1,default,`+c.ann+`"`, 1, true)
+	}
+	// package qualifiers that are substrings of a keyword ("t", "s", "str", "ct" of "struct"; "i" of "i64")
+	q := newStruct("spellings")
+	q.addRaw("A", list(ptr(sref(leaf))), fmt.Sprintf(`frugal:"1,default,list<t.%s>"`, leaf.Name), 1, true)
+	q.addRaw("B", mapOf(prim("string"), ptr(sref(leaf))), fmt.Sprintf(`frugal:"2,default,map<string:str.%s>"`, leaf.Name), 2, true)
+	q.addRaw("C", sref(leaf), fmt.Sprintf(`frugal:"3,default,s.%s"`, leaf.Name), 3, true)
+	q.addRaw("D", enumTy, `frugal:"4,default,i.E1"`, 4, true)
+	q.addRaw("E", list(enumTy), `frugal:"5,default,list<i.E1>"`, 5, true)
+	q.addRaw("F", set(ptr(sref(leaf))), fmt.Sprintf(`frugal:"6,default,set<ct.%s>"`, leaf.Name), 6, true)
 	// same named int64 type used as enum and as plain i64, in both first-use orders
 	e2, e3 := named("int64", "E2"), named("int64", "E3")
 	a := newStruct("spellings")
